@@ -41,4 +41,9 @@ CLAIMED['C13'] = ('DESIGN.md 4/C13', 'Symbolic execution of the peak-only series
     'normalisation; every rise/fall/flat pattern a path, n<=6) with the conservation laws and shift invariance decided '
     'by z3, and of the power-law cycle/amplitude functions with symbolic a_ref, n_cyc for b in {1, 1/2} (x**(1/b) '
     'polynomial, y**b an exact algebraic root; rational-function arithmetic), n<=4.')
+CLAIMED['C14'] = ('DESIGN.md 4/C14', 'interp_array_to_approx_dt / interp_to_approx_dt executed with symbolic record, dt AND target '
+    '(1/8 <= dt/target <= 8): ceil/floor of the symbolic ratio fork over every feasible integer factor, so the step '
+    'rule is decided over the reals for every ratio incl. non-commensurate ones; retained samples, subsequence, range, '
+    'duration and even-length clauses per path (L<=7); Fourier resampling through a model of SciPy\'s rfft/irfft '
+    'branch on symbolic trigonometric polynomials.')
 NOT_APPLICABLE = {}
